@@ -8,6 +8,8 @@ import (
 	"math/rand"
 	"os"
 
+	"github.com/piotrnar/gocoin/lib/btc"
+
 	"verifharness/conc"
 )
 
@@ -19,6 +21,7 @@ const (
 	firstChain = 7001 // a long chain of unconfirmed transactions (replacements with > 100 descendants)
 	firstMotif = 400  // funding tx 400, then the motif groups (see makeMotifs)
 	nMotif     = 8
+	firstSig   = 6000 // the sigop family: funding tx, spenders 6001.., their children 6201..
 	firstRank  = 8000 // the rank-run family: funding tx, anchor, tail, a run of insertions behind the anchor, two-parent children
 	unknownTx  = 9000 // parents that never exist
 	baseH      = 120
@@ -41,7 +44,7 @@ type gen struct {
 func (g *gen) amt(sat uint64) conc.Amt { return conc.SatAmt(sat) }
 
 func (g *gen) freshCoinbase() *genOut {
-	if g.cbN >= 12 { // 13 funds the motif transactions, 14 the rank-run family, 15 the long chain, 16..21 are left to the bulky transactions
+	if g.cbN >= 11 { // 12 funds the sigop family, 13 the motif transactions, 14 the rank-run family, 15 the long chain, 16..21 are left to the bulky transactions
 		return nil
 	}
 	g.cbN++
@@ -682,6 +685,91 @@ func (g *gen) rankOps(ntx, n, variant int) OpLine {
 	return ln
 }
 
+// The sigop family (built by the driver, see addSigops): a confirmed funding tx whose outputs are P2SH / P2WSH /
+// P2SH-P2WSH scripts carrying signature operations in a branch that is never executed, and P2WPKH outputs; one
+// spender per output (some with bare CHECKSIG outputs, some creating such an output again for a child).  Together
+// they cost more than a block may carry (80000): the block assembled from the listing - cut on the pool's
+// recorded cost - must connect, and every recorded cost must be the BIP141 cost.
+func sigKind(i int) int {
+	switch i % 8 {
+	case 6:
+		return conc.KindP2WSHSig
+	case 7:
+		if i%16 == 7 {
+			return conc.KindP2SHP2WSH
+		}
+		return conc.KindP2WPKH
+	}
+	return conc.KindP2SHSig
+}
+
+func (g *gen) sigopsOps(n, variant int) OpLine {
+	r := g.rng
+	ln := OpLine{Obs: []int{7, 1000}[variant%2]}
+	add := func(o Op) { ln.Ops = append(ln.Ops, o) }
+	add(Op{A: "Submit", T: firstSig, Mode: "net"})
+	add(Op{A: "MineListing", K: -1})
+	for i := 0; i < n; i++ {
+		add(Op{A: "Submit", T: firstSig + 1 + i, Mode: []string{"net", "net", "trusted", "local"}[r.Intn(4)]})
+		if i%6 == 0 {
+			add(Op{A: "Submit", T: firstSig + 201 + i, Mode: "net"})
+		}
+		if i == n/2 {
+			add(Op{A: "SaveLoad"})
+		}
+	}
+	add(Op{A: "Observe"})
+	add(Op{A: "MineListing", K: -1}) // more than a block may carry: the assembly has to cut
+	add(Op{A: "Reorg", D: 1, Blks: [][]int{{firstSig + 1, firstSig + 2}, {}}})
+	add(Op{A: "Observe"})
+	add(Op{A: "MineListing", K: -1})
+	add(Op{A: "MineListing", K: -1})
+	return ln
+}
+
+// addSigops registers the sigop family in the world (driver side).
+func addSigops(w *conc.World, n int) {
+	const unit = 30000000
+	var fouts []conc.KindOut
+	for i := 0; i < n; i++ {
+		fouts = append(fouts, conc.KindOut{Kind: sigKind(i), Tag: firstSig*100 + i, N: 20, Sat: unit})
+	}
+	fouts = append(fouts, conc.KindOut{Kind: conc.KindPlainP2SH, Tag: firstSig*100 + n, Sat: 50e8 - uint64(n)*unit - 200000, BareSigs: 3})
+	reg := func(id int, tx *btc.Tx, ins []conc.InDef, outs []conc.KindOut) {
+		def := conc.TxDef{Ins: ins, Ver: 2}
+		for _, o := range outs {
+			def.Outs = append(def.Outs, conc.OutDef{Amt: conc.SatAmt(o.Sat)})
+		}
+		for _, o := range outs {
+			if o.BareSigs > 0 {
+				def.Outs = append(def.Outs, conc.OutDef{})
+			}
+		}
+		w.RegisterTx(id, tx, &def)
+	}
+	ftx := w.KindTx(nil, nil, nil, 12, fouts)
+	reg(firstSig, ftx, []conc.InDef{{Tx: 12, Vout: 1, Ok: true}}, fouts)
+	for i := 0; i < n; i++ {
+		id := firstSig + 1 + i
+		o := conc.KindOut{Kind: conc.KindPlainP2SH, Tag: id * 10, Sat: unit - uint64(6000+50*i)}
+		if i%6 == 0 {
+			o.Kind, o.N = conc.KindP2SHSig, 5 // an unconfirmed output with sigops in its redeem script, spent by a child
+		}
+		if i%5 == 0 {
+			o.BareSigs = 2
+		}
+		souts := []conc.KindOut{o}
+		stx := w.KindTx(ftx, fouts, []int{i}, 0, souts)
+		reg(id, stx, []conc.InDef{{Tx: firstSig, Vout: i + 1, Ok: true}}, souts)
+		if i%6 == 0 {
+			cid := firstSig + 201 + i
+			couts := []conc.KindOut{{Kind: conc.KindPlainP2SH, Tag: cid * 10, Sat: o.Sat - 7000}}
+			ctx := w.KindTx(stx, souts, []int{0}, 0, couts)
+			reg(cid, ctx, []conc.InDef{{Tx: id, Vout: 1, Ok: true}}, couts)
+		}
+	}
+}
+
 func cmdGen(args []string) {
 	fs := flag.NewFlagSet("gen", flag.ExitOnError)
 	seed := fs.Int64("seed", 1, "")
@@ -691,6 +779,7 @@ func cmdGen(args []string) {
 	nbulky := fs.Int("bulky", 0, "")
 	nchain := fs.Int("longchain", 0, "")
 	nrank := fs.Int("rankrun", 0, "")
+	nsig := fs.Int("sigops", 0, "")
 	scen := fs.String("scenario", "", "")
 	opsout := fs.String("opsout", "", "")
 	fs.Parse(args)
@@ -719,6 +808,9 @@ func cmdGen(args []string) {
 	w := bufio.NewWriter(f)
 	for i := 0; i < *traces; i++ {
 		ln := g.makeOps(*ntx, *nops, *nbulky, *nchain, *nrank, i)
+		if *nsig > 0 {
+			ln = g.sigopsOps(*nsig, i)
+		}
 		lb, _ := json.Marshal(ln)
 		w.Write(lb)
 		w.WriteByte('\n')
